@@ -18,7 +18,7 @@ Multiplying the published recurrences by the new alpha turns every one of them i
 
       fg_i = Union(fg_{i-1}, fs)
       αg_i = Union(αg_{i-1}, αs)                              (not knockout)
-      αg_i = (1 − fs)·αg_{i-1} + (fs − αs)·α0 + αs            (knockout)  (*)
+      αg_i = (1 − fs)·αg_{i-1} + αs                           (knockout, §11.4.6)  (*)
       α_i  = Union(α0, αg_i)
       P_i  = (1 − fs)·P_{i-1} + (fs − αs)·Pb + (1 − αb)·Ps + αb·αs·B(Pb/αb, Ps/αs)
 
@@ -34,10 +34,18 @@ No clamp, no guarded division: the only quotients are `P/α` where the blend fun
 straight colour (and in a clipping group, below); they are multiplied by that `α` (Lean's `x/0 = 0`
 is never observable).
 
-(*) the specialised knockout formula printed in §11.4.6 is, as far as this transcription could check
-without the text at hand, `αg_i = (1−fs)·αg_{i-1} + αs`; the two differ by `(fs−αs)·α0`, which vanishes
-for an isolated group or a transparent backdrop (`α0 = 0`) and for elements with `fs = αs`. The
-variant with `α0` is the one the project's float64 oracle (harness/comp_common.py) uses.
+(*) **The one rule on which the code departs from the published model.** §11.4.6 gives for a knockout
+group `αg_i = (1 − fs)·αg_{i-1} + αs` (`KoRule.published`). It is the only choice coherent with the colour
+recurrence: with every colour equal to 1 the last line must give `P_i = α_i` ("white over white is white"), and
+`α_i = Union(α0, αg_i)` satisfies `α_i = (1−fs)·α_{i-1} + (fs−αs)·α0 + αs` exactly for this `αg_i`.
+`composite/__init__.py` (and the float64 oracle of harness/comp_common.py, which copied it) computes
+`αg_i = (1 − fs)·αg_{i-1} + (fs − αs)·α0 + αs` (`KoRule.asCoded`): larger by `(fs−αs)·α0`, which matters for a
+knockout element with `αs < fs` (opacity, mask density or object alpha below 1) over a backdrop with
+`0 < α0 < 1` (a non-isolated group over a translucent backdrop, a clip run on a translucent base, a
+document composited over a translucent backdrop) — there white over white comes out grey (colour 6/7 for
+`α0 = αs = 1/2`, `fs = 1`). The spec takes the rule as a parameter so that BOTH statements can be made:
+the code refines `specNode .asCoded` on every tree, and `specNode .published` on every tree without knockout
+flags; `Props/C11.lean` has the witness for the difference.
 
 Core Lean only.
 -/
@@ -68,12 +76,25 @@ def SState.init (P : Color) (alpha : Rat) (isolated : Bool) : SState :=
 /-- straight colour of a premultiplied one (meaningful where `a ≠ 0`; multiplied by `a` wherever it is used) -/
 def straight (P : Color) (a : Rat) : Color := fun ch => P ch / a
 
+/-- which recurrence the group alpha follows after a knockout element (see (*) in the header) -/
+inductive KoRule where
+  /-- PDF 1.7 §11.4.6: `αg_i = (1 − fs)·αg_{i-1} + αs` -/
+  | published
+  /-- `composite/__init__.py`: `αg_i = (1 − fs)·αg_{i-1} + (fs − αs)·α0 + αs` -/
+  | asCoded
+  deriving DecidableEq, Repr
+
+def KoRule.alpha (k : KoRule) (fs αs ag a0 : Rat) : Rat :=
+  match k with
+  | .published => (1 - fs) * ag + αs
+  | .asCoded => (1 - fs) * ag + (fs - αs) * a0 + αs
+
 /-- one element of a group (§11.4.5), premultiplied. `Ps = αs·Cs`. -/
-def specSource (bl : Color → Color → Color) (σ : SState) (Ps : Color) (fs αs : Rat) (knockout : Bool) : SState :=
+def specSource (k : KoRule) (bl : Color → Color → Color) (σ : SState) (Ps : Color) (fs αs : Rat) (knockout : Bool) : SState :=
   let Pb : Color := if knockout then σ.P0 else σ.P
   let αb : Rat := if knockout then σ.a0 else σ.a
   let blended : Color := bl (straight Pb αb) (straight Ps αs)
-  let ag : Rat := if knockout then (1 - fs) * σ.ag + (fs - αs) * σ.a0 + αs else union σ.ag αs
+  let ag : Rat := if knockout then k.alpha fs αs σ.ag σ.a0 else union σ.ag αs
   { σ with
     sg := union σ.sg fs
     ag := ag
@@ -97,15 +118,15 @@ def specFactors (pr : Props) (V : Rect) (x y : Int) : Rat × Rat :=
 
 /-- an object `(Pj, fj, aj)` (colour premultiplied by its own alpha `aj`) enters its parent's group as the
 element `(ka·Pj, fj·kf, aj·ka)` -/
-def specFinish (B : Mode → Color → Color → Color) (V : Rect) (x y : Int) (σ : SState) (pr : Props)
+def specFinish (k : KoRule) (B : Mode → Color → Color → Color) (V : Rect) (x y : Int) (σ : SState) (pr : Props)
     (Pj : Color) (fj aj : Rat) : SState :=
-  let k := specFactors pr V x y
-  specSource (B pr.mode) σ (fun ch => k.2 * Pj ch) (fj * k.1) (aj * k.2) pr.knockout
+  let q := specFactors pr V x y
+  specSource k (B pr.mode) σ (fun ch => q.2 * Pj ch) (fj * q.1) (aj * q.2) pr.knockout
 
 mutual
 
 /-- denotation of one layer over the state `σ` of the group it is in -/
-def specNode (B : Mode → Color → Color → Color) (V : Rect) (x y : Int) (inClipRun : Bool)
+def specNode (k : KoRule) (B : Mode → Color → Color → Color) (V : Rect) (x y : Int) (inClipRun : Bool)
     (σ : SState) : Node → SState
   | .leaf pr hasPixels color shape clips =>
     if !pr.visible then σ
@@ -116,8 +137,8 @@ def specNode (B : Mode → Color → Color → Color) (V : Rect) (x y : Int) (in
       let color0 : Color := if hasPixels then pasteAt V pr.bbox x y color white else white
       let aj : Rat := if hasPixels then pasteAt V pr.bbox x y shape 0 else 0
       let Pj : Color := fun ch => aj * color0 ch
-      let Pj' := if clips.isEmpty then Pj else clipGroupColor (specClips B V x y (SState.init Pj aj false) clips) aj
-      specFinish B V x y σ pr Pj' aj aj
+      let Pj' := if clips.isEmpty then Pj else clipGroupColor (specClips k B V x y (SState.init Pj aj false) clips) aj
+      specFinish k B V x y σ pr Pj' aj aj
   | .group pr passThrough children clips =>
     if !pr.visible then σ
     else if intersect V pr.bbox = Rect.zero then σ
@@ -129,30 +150,30 @@ def specNode (B : Mode → Color → Color → Color) (V : Rect) (x y : Int) (in
       let αb : Rat := if pr.knockout then σ.a0 else σ.a
       let inside := V'.contains x y
       -- pass-through = non-isolated, any other blend mode = isolated
-      let sub := specList B V' x y (SState.init Pb αb (!passThrough)) children
+      let sub := specList k B V' x y (SState.init Pb αb (!passThrough)) children
       let Pj : Color := if inside then groupColor sub else fun _ => 0
       let fj : Rat := if inside then sub.sg else 0
       let aj : Rat := if inside then sub.ag else 0
-      let Pj' := if clips.isEmpty then Pj else clipGroupColor (specClips B V x y (SState.init Pj aj false) clips) aj
-      specFinish B V x y σ pr Pj' fj aj
+      let Pj' := if clips.isEmpty then Pj else clipGroupColor (specClips k B V x y (SState.init Pj aj false) clips) aj
+      specFinish k B V x y σ pr Pj' fj aj
 
 /-- a stack, bottom to top -/
-def specList (B : Mode → Color → Color → Color) (V : Rect) (x y : Int) (σ : SState) : List Node → SState
+def specList (k : KoRule) (B : Mode → Color → Color → Color) (V : Rect) (x y : Int) (σ : SState) : List Node → SState
   | [] => σ
-  | n :: rest => specList B V x y (specNode B V x y false σ n) rest
+  | n :: rest => specList k B V x y (specNode k B V x y false σ n) rest
 
 /-- the layers of a clip run, each an ordinary element of the clipping group -/
-def specClips (B : Mode → Color → Color → Color) (V : Rect) (x y : Int) (σ : SState) : List Node → SState
+def specClips (k : KoRule) (B : Mode → Color → Color → Color) (V : Rect) (x y : Int) (σ : SState) : List Node → SState
   | [] => σ
-  | n :: rest => specClips B V x y (specNode B V x y true σ n) rest
+  | n :: rest => specClips k B V x y (specNode k B V x y true σ n) rest
 
 end
 
 /-- the document (a non-isolated group over the backdrop `(P, alpha)`, `P` premultiplied):
 (group colour premultiplied by the group alpha, group shape, group alpha) -/
-def specDoc (B : Mode → Color → Color → Color) (V : Rect) (x y : Int) (P : Color) (alpha : Rat)
+def specDoc (k : KoRule) (B : Mode → Color → Color → Color) (V : Rect) (x y : Int) (P : Color) (alpha : Rat)
     (layers : List Node) : Color × Rat × Rat :=
-  let σ := specList B V x y (SState.init P alpha false) layers
+  let σ := specList k B V x y (SState.init P alpha false) layers
   (groupColor σ, σ.sg, σ.ag)
 
 end PsdVerif.Composite
